@@ -1,10 +1,11 @@
 PROPERTY = "C02"
 LEVEL = "proof"
-LEAN_MODULES = ["CifModel.Props.C02"]
+LEAN_MODULES = ["CifModel.Props.C02", "CifModel.Props.C02Doc"]
 REQUIRED = ["CifModel.C02_text_protocol", "CifModel.C02_fold_line_progress", "CifModel.C02_text_total",
             "CifModel.C02_flags_semis", "CifModel.C02_char_text_roundtrip",
             "CifModel.C02_analysis_facts", "CifModel.C02_write_char_text",
-            "CifModel.C02_value_presented", "CifModel.C02_value_roundtrip", "CifModel.C02_unquoted_stays_unquoted"]
+            "CifModel.C02_value_presented", "CifModel.C02_value_roundtrip", "CifModel.C02_unquoted_stays_unquoted",
+            "CifModel.C02_total", "CifModel.C02_total_no_tables"]
 GEN = ["WriterConsts", "ErrCodes"]
 FAMILIES = ["decode", "writeval", "write"]
 TRUSTED_BASE = [
@@ -25,10 +26,10 @@ ASSUMPTIONS = [
 PARTIAL = [
     "C02_roundtrip_full (whole documents): needs the integrated parser model (group gJ); the value level is proved against the lexer "
     "model of group gD (C02_value_roundtrip, C02_unquoted_stays_unquoted)",
-    "C02_line_bound_full: the whole-document column invariant is not proved; proved: 0 < fold_line <= length (C02_fold_line_progress); the "
-    "line bound is checked on every generated case by the oracle",
-    "C02_total_full: false of the current tree (open findings F-table-key-colon, F-table-number-overlength, F-nested-table-nowrap); proved: "
-    "write_text never returns CIF_INTERNAL_ERROR under the flags write_char derives (C02_text_total, C02_flags_semis)",
+    "C02_line_bound_full: the whole-document column invariant is not proved; proved at the value level: no line that ends inside what "
+    "write_char writes is over-long, for every start column (part of C02_value_presented); whole documents: checked per case by the oracle",
+    "C02_total is proved for whole documents (every walk order): writable CIF -> CIF_OK, or CIF_DISALLOWED_VALUE and the CIF holds a table "
+    "entry; the sharper witness (that very key cannot be quoted with room for its colon) is checked per case by the oracle only",
 ]
 LEVEL_TEXT = ("Proof (partial): the line-folding / text-prefix protocol is proved to be an inverse pair — for every CR-free text and every "
               "combination of the fold and prefix flags decode_text(write_text body) = text (C02_text_protocol), lifted to write_char with the "
